@@ -337,7 +337,7 @@ func recSpeciation(args []string) int {
 			continue
 		}
 		done, rerr := 0, error(nil)
-		if p := vhu.Guard(func() { done, rerr = runEpochs(&sc, r, opts, pop, ob) }); p != "" {
+		if p := vhu.Guard(func() { done, rerr = runEpochs(&sc, r, &opts, pop, ob) }); p != "" {
 			sr.aborted = append(sr.aborted, fmt.Sprintf("%s: panic after %d epochs: %s", sc.Name, done, p))
 			continue
 		}
